@@ -539,6 +539,9 @@ class ConstEval:
                     return list(vs[0].items)
                 return {"float": float, "complex": complex, "len": len, "abs": abs, "str": str, "tuple": tuple, "list": list, "sum": sum,
                         "min": min, "max": max, "sorted": sorted, "bool": bool, "round": round}[b](*vs)
+            if b in ("all", "any"):
+                vs = args()
+                return all(_iterate(vs[0])) if b == "all" else any(_iterate(vs[0]))
             if b == "range":
                 return range(*args())
             if b == "enumerate":
